@@ -284,6 +284,8 @@ def c02_selection(case, obs, flavor):
             noms = ref.nominees(tree, prev["C"], ev, gv)
         except ref.Missing:
             continue
+        if o.get("can_mutated"):
+            out.append({"kind": "can", "step": step, "at": None, "detail": f"can({ev}) changed the interpreter (configuration / context / history / queue) or ran an action"})
         if noms is None:
             continue
         T = [r for r in o["T"] if not r.startswith("#recv:") and not r.startswith("#aerr:")]
